@@ -276,6 +276,11 @@ impl<SP: StorageProvider, PS: PolicyStore> Transaction<SP, PS> {
         parent: Address,
         buffer: &mut TraversalBuffer,
     ) -> Result<(), ClientError> {
+        // Whether a new perspective has to be opened for this command (its
+        // parent is not the head of the current one), and whether opening it
+        // takes the parent out of the transaction's tips.
+        let fresh = self.phead != Some(parent.id);
+        let parent_tip = self.heads.get(&parent.id).copied();
         let perspective = self.get_perspective(parent, storage, buffer)?;
 
         let policy_id = perspective.policy();
@@ -292,6 +297,18 @@ impl<SP: StorageProvider, PS: PolicyStore> Transaction<SP, PS> {
         ) {
             perspective.revert(checkpoint)?;
             sink.rollback();
+            if fresh {
+                // The perspective was opened only for the rejected command and
+                // holds nothing. An empty perspective cannot be written, so
+                // drop it and give the parent back its place among the tips;
+                // the transaction stays usable and still commits everything
+                // accepted so far.
+                self.perspective = None;
+                self.phead = None;
+                if let Some(loc) = parent_tip {
+                    self.heads.insert(parent.id, loc);
+                }
+            }
             return Err(e.into());
         }
         perspective.add_command(command)?;
